@@ -6,6 +6,8 @@ per model) is compared stage by stage with the TREE-built C library on the same 
 """
 from __future__ import annotations
 
+import os
+
 import numpy as np
 
 from .. import core, mj
@@ -27,10 +29,16 @@ META = dict(
     note="MJX runs on the PyPI binding (3.13.0) because the tree's bindings cannot be built here: the MJCF is compiled by "
          "both compilers and a case is judged only if every model array MJX consumes equals the tree-compiled one "
          "(skew_excluded otherwise). Iterative collision functions (SDF/convex) are compared with a loose, fixed tolerance. "
-         "Solver-dependent quantities are skipped (counted) when the C solver hit its iteration cap.",
+         "The constraint solve is judged by optimality certificates, not by trusting either iterative solver: MJX's qacc must "
+         "be a stationary point of ITS OWN cost (else counted mjx_solver_not_converged_skipped) and then must minimise the C "
+         "engine's constraint problem, evaluated with mj_constraintUpdate at MJX's qacc (|M^-1 grad| bound); C's qacc / next "
+         "state are compared only when the C solver passes the same certificate (else c_solver_not_converged_skipped). "
+         "Known root causes get model-independent canonical keys (K_* constants); anything else is keyed (field, model family). "
+         "Only the first diverging pipeline stage of a state is reported (later stages are contaminated).",
     design_ref="DESIGN.md §3 C43")
 
-# fixed tolerances: |a-b| <= ATOL + RTOL*scale  (observed noise on the unchanged tree: see ctx.extra["max_err_*"])
+# fixed tolerances: |a-b| <= ATOL + RTOL*scale  (observed noise on the unchanged tree: ctx.extra["max_err_over_tol"],
+# ~1e-7 of the tolerance for every field that is not part of a reported finding)
 RTOL, ATOL = 1e-8, 1e-10
 RTOL_SOLVE, ATOL_SOLVE = 1e-5, 1e-6        # quantities downstream of the iterative constraint solver
 RTOL_ITER, ATOL_ITER = 2e-2, 2e-3          # contact geometry of iterative (SDF / convex) collision functions
@@ -441,7 +449,7 @@ def check_model(J, lib, part, item, cap):
             for fld, e, key in div[first]:
                 if key is None and first == "act" and np.any(np.array(mt.actuator_actearly)):
                     key = K_ACTEARLY
-                if key is None and fld == "actuator_velocity" and int(mt.opt.disableflags) & (1 << 12):
+                if key is None and fld == "actuator_velocity" and int(mt.opt.disableflags) & (1 << 11):
                     key = K_ACTVEL
                 if key is None and fam.startswith("gate["):
                     key = "feature accepted by put_model but not reproduced: %s" % fam
@@ -613,6 +621,10 @@ class _Merger:
 def run(ctx):
     mj.load()
     items = alphabet(ctx.thorough)
+    only = os.environ.get("VERIF_ONLY")      # debugging aid (mutation demos): restrict to items whose name/task contains a token
+    if only:
+        items = [it for it in items if any(t in (it["name"] + " " + it.get("task", "") + " " + it.get("fn", "")) for t in only.split(";"))]
+        ctx.exhaustive = False
     cap = ctx.q(12, 16)
     mg = _Merger(ctx)
     core.pmap(mg, _chunk, [(it, cap) for it in items], nchunks=len(items))
